@@ -66,6 +66,49 @@ theorem C20_accepted_wellformed {psLen : Int} {bi : Meta.BInfo} {g : Meta.Geom} 
     · simp only [he, Bool.false_eq_true, if_false, Option.some.injEq] at hfs
       rw [← hfs]; exact hwf
 
+/-- which variant of a field the accepted torrent uses: the name is `name.utf-8` when that is
+    non-empty, else `name` (`Meta.pickName`); every file's path is `path.utf-8` when present,
+    else `path` (`Meta.pickPath`).  `bi` ranges over every info dictionary, with both
+    variants of every field arbitrary and independent: since `C20_accepted_wellformed` is
+    about what `metadataComplete` returns, it is the PREFERRED variant — the one the
+    front-ends then show — that is known to be well formed, whatever the other one says. -/
+theorem C20_accepted_preferred_variants {psLen : Int} {bi : Meta.BInfo} {g : Meta.Geom}
+    (h : Meta.metadataComplete psLen bi = .ok g) :
+    Meta.pickName bi = .ok g.name ∧
+    (g.multi = true → ∃ fs, bi.files = some fs ∧
+      g.files.map (fun f => some f.path) = fs.map Meta.pickPath) := by
+  obtain ⟨multi, files, length, chunks, name, n, -, -, -, hlf, -, -, hnm, -, hg⟩ := Meta.mc_ok_inv h
+  obtain ⟨-, -, -, -, -, hmulti, -⟩ := Meta.lengthAndFiles_ok hlf
+  subst hg
+  refine ⟨hnm, fun hm => ?_⟩
+  obtain ⟨fs, hfs, -, -, hp⟩ := hmulti hm
+  exact ⟨fs, hfs, hp⟩
+
+/-- in particular the names the front-ends show for an accepted torrent are exactly the
+    preferred variants, and they are validated: a well-formed `path` next to a crafted
+    `path.utf-8` (or the other way round) cannot smuggle an unvalidated name into the table -/
+theorem C20_accepted_shown_names_validated {psLen : Int} {bi : Meta.BInfo} {g : Meta.Geom}
+    (hash : Str) (h : Meta.metadataComplete psLen bi = .ok g) (fs : List Meta.BFile)
+    (hfs : bi.files = some fs) (hm : g.multi = true) :
+    (filesOf (ofGeom hash g)).map (fun f => some f.path) = fs.map Meta.pickPath ∧
+    ∀ f ∈ filesOf (ofGeom hash g), f.path ≠ [] ∧ ∀ c ∈ f.path, compOK c = true := by
+  obtain ⟨_, hv⟩ := C20_accepted_preferred_variants h
+  obtain ⟨fs', hfs', hp⟩ := hv hm
+  rw [hfs] at hfs'
+  injection hfs' with hfs'
+  subst hfs'
+  have hwf := WFfiles_ofGeom h
+  have hfiles : filesOf (ofGeom hash g) = g.files.map ofGFile := by
+    unfold filesOf ofGeom
+    by_cases he : g.files.isEmpty = true
+    · have : g.files = [] := by cases hg : g.files <;> simp_all
+      simp [this]
+    · simp [he]
+  rw [hfiles]
+  refine ⟨?_, fun f hf => ⟨hwf.nonempty f hf, hwf.comps f hf⟩⟩
+  rw [List.map_map]
+  exact hp
+
 /-- no page, playlist or lookup faults for any torrent MetadataComplete accepts -/
 theorem C20_accepted_no_crash {psLen : Int} {bi : Meta.BInfo} {g : Meta.Geom} (hash : Str)
     (h : Meta.metadataComplete psLen bi = .ok g) (s : Str) (q : Bool) :
